@@ -150,3 +150,29 @@ theorem C05_NonFinal_moves_only_the_final (l : List ENode) :
     exact takeWhile_all _ _ x hx'
 
 end Nject
+
+namespace Nject
+
+/-- named edits only rearrange and drop: whatever reaches the list was listed -/
+theorem handleReplaceByName_mem (l r : List ENode) (h : handleReplaceByName l = .ok r) : ∀ n ∈ r, n ∈ l := by
+  obtain ⟨removed, hp, _⟩ := C18_only_replaced_targets_disappear l r h
+  intro n hn
+  exact hp.mem_iff.mpr (List.mem_append.mpr (Or.inr hn))
+
+/-- **without generated providers `editAll` is named edits followed by one NonFinal adjustment** (what the earlier
+    theorems about `handleReplaceByName` and `reorderNonFinal` describe) -/
+theorem C05_editAll_without_generators (l : List ENode) (h : ∀ n ∈ l, n.gen = false) :
+    editAll l = (handleReplaceByName l).map reorderNonFinal := by
+  unfold editAll
+  cases he : handleReplaceByName l with
+  | error e => rfl
+  | ok l0 =>
+    simp only [Except.map]
+    have : (reorderNonFinal l0).any (·.gen) = false := by
+      rw [List.any_eq_false]
+      intro n hn
+      have h1 := (C18_reorderNonFinal_perm l0).mem_iff.mp hn
+      simp [h n (handleReplaceByName_mem l l0 he n h1)]
+    simp [this]
+
+end Nject
